@@ -102,12 +102,17 @@ def big_structure(rng, nc):
     return s
 
 
-def judge(ctx, s, text, features, via_path=False):
+def judge(ctx, s, text, features, via_path=False, fixed_path=None):
     ctx.evaluated()
     case = dict(blt=text, via_path=via_path, struct={k: v for k, v in s.items() if k != 'coalition'})
     try:
         with cpu_budget(20.0):
-            if via_path:
+            if fixed_path is not None:
+                # the same path written again with other contents (a file corrected in place and read again)
+                with open(fixed_path, 'wb') as f:
+                    f.write(text.encode('utf-8'))
+                p = ElectionProfile(path=fixed_path)
+            elif via_path:
                 fd, path = tempfile.mkstemp(suffix='.blt', dir=os.path.join(os.path.dirname(os.path.dirname(os.path.dirname(os.path.abspath(__file__)))), 'out'))
                 try:
                     with os.fdopen(fd, 'wb') as f:
@@ -144,6 +149,15 @@ def judge(ctx, s, text, features, via_path=False):
 
 
 def shard(ctx):
+    fixed = [None]
+    try:
+        _shard(ctx, fixed)
+    finally:
+        if fixed[0] is not None and os.path.exists(fixed[0]):
+            os.unlink(fixed[0])
+
+
+def _shard(ctx, fixed):
     n_min = 200 if ctx.quick else 3000
     for i, rng in ctx.cases(n_min, 10 ** 9):
         s = rich_structure(rng)
@@ -159,6 +173,29 @@ def shard(ctx):
             t2 = blt.render(s, rng, feats2)
             ctx.count('bom_files')
             judge(ctx, s, t2, feats2 | {'bom-utf8-path'}, via_path=True)
+        if i % 40 == 20:
+            # a file corrected in place: the same path, the same length, read again at once - what is read is what is there now
+            import copy, random as _random
+            s2 = copy.deepcopy(s)
+            done = False
+            for k, (m, r) in enumerate(s2['lines']):
+                flat = r if not s2.get('eq') else None
+                if flat and len(flat) >= 2 and len(str(flat[0])) == len(str(flat[1])):
+                    flat[0], flat[1] = flat[1], flat[0]
+                    done = True
+                    break
+            if done and not s.get('use_nick'):
+                seed = rng.random()
+                fa, fb = set(), set()
+                ta = blt.render(s, _random.Random(seed), fa)
+                tb = blt.render(s2, _random.Random(seed), fb)
+                if ta != tb and len(ta.encode('utf-8')) == len(tb.encode('utf-8')):
+                    if fixed[0] is None:
+                        fd, fixed[0] = tempfile.mkstemp(suffix='.blt', dir=os.path.join(os.path.dirname(os.path.dirname(os.path.dirname(os.path.abspath(__file__)))), 'out'))
+                        os.close(fd)
+                    ctx.count('files_rewritten_in_place')
+                    judge(ctx, s, ta, fa | {'path'}, fixed_path=fixed[0])
+                    judge(ctx, s2, tb, fb | {'path', 'rewritten-in-place-same-length'}, fixed_path=fixed[0])
         if i % 60 == ctx.shard % 60:
             nc = rng.choice([255, 256, 257, 300] + ([65535, 65536] if (not ctx.quick and ctx.shard == 0 and i < 100) else []))
             sb = big_structure(rng, nc)
